@@ -44,6 +44,7 @@ class Sched:
         self.deadlock = False
         self.livelock = False
         self.timeouts_left = max_timeouts
+        self.clock = 1000.0  # virtual seconds: advanced by the harness (a slow peer) and by every timed wait that times out
         self.horizon = horizon
         self.finished = threading.Event()
         self.trace_codes = set()
@@ -266,10 +267,14 @@ class ShimQueue:
     def put(self, item, block=True, timeout=None):
         s = current()
         s.point("put")
+        if block and timeout is not None and timeout < 0:
+            raise ValueError("'timeout' must be a non-negative number")
         if self._full():
             if not block or (timeout is not None and timeout <= 0):
                 raise _realqueue.Full
             to = s.block(lambda: not self._full(), timeout_ok=timeout is not None)
+            if to:
+                s.clock += timeout
             if to and self._full():
                 raise _realqueue.Full
         self.items.append(item)
@@ -280,10 +285,14 @@ class ShimQueue:
     def get(self, block=True, timeout=None):
         s = current()
         s.point("get")
+        if block and timeout is not None and timeout < 0:
+            raise ValueError("'timeout' must be a non-negative number")
         if not self.items:
             if not block or (timeout is not None and timeout <= 0):
                 raise _realqueue.Empty
             to = s.block(lambda: bool(self.items), timeout_ok=timeout is not None)
+            if to:
+                s.clock += timeout
             if to and not self.items:
                 raise _realqueue.Empty
         return self.items.pop(0)
